@@ -4,10 +4,10 @@ C04 proofs — structural invariants (itemsOk, itemsNodup, preReg, desGone, crea
 import TbbVerif.Proofs.C04.StructD
 
 namespace TbbVerif.C04
-variable {cfg : Cfg} {reg : List Nat} {s : St} {t : Nat}
+variable {cfg : Cfg} {r : List RF} {reg : List Nat} {s : St} {t : Nat}
 
-theorem itemsOk_exec (hS : Struct reg s) :
-    ∀ L x, x ∈ (exec cfg reg s t).items L → (exec cfg reg s t).lst x = some L ∧ L ∈ reg ∧ (exec cfg reg s t).par x ≠ none := by
+theorem itemsOk_exec_c (hS : Struct reg s) :
+    ∀ L x, x ∈ (execCancel cfg reg s t).items L → (execCancel cfg reg s t).lst x = some L ∧ L ∈ reg ∧ (execCancel cfg reg s t).par x ≠ none := by
   have g0 := hS.itemsOk
   have g1 := hS.itemsNodup
   have g2 := hS.bindReg
@@ -19,7 +19,11 @@ theorem itemsOk_exec (hS : Struct reg s) :
   have g5 := hS.desGone
   have g5t := hS.desGone t
   have g6 := hS.createdPar
-  exec_cases
+  unfold execCancel
+  try unfold walkNext
+  try unfold afterHint
+  try unfold applyReset
+  repeat' split
   all_goals (try rw [‹s.pc t = _›] at g2t)
   all_goals (try simp [Pc.owner, Pc.registered, Pc.isBind, List.Nodup.mem_erase_iff] at g2t)
   all_goals (try rw [‹s.pc t = _›] at g3t)
@@ -31,8 +35,75 @@ theorem itemsOk_exec (hS : Struct reg s) :
   all_goals (intro L x h1; try simp [upd_apply, afterLists, nextList] at h1 ⊢)
   all_goals grind [Pc.owner, Pc.registered, Pc.isBind, List.Nodup.mem_erase_iff]
 
+theorem itemsOk_exec_b (hS : Struct reg s) :
+    ∀ L x, x ∈ (execBind cfg s t).items L → (execBind cfg s t).lst x = some L ∧ L ∈ reg ∧ (execBind cfg s t).par x ≠ none := by
+  have g0 := hS.itemsOk
+  have g1 := hS.itemsNodup
+  have g2 := hS.bindReg
+  have g2t := hS.bindReg t
+  have g3 := hS.ownerPar
+  have g3t := hS.ownerPar t
+  have g4 := hS.preReg
+  have g4t := hS.preReg t
+  have g5 := hS.desGone
+  have g5t := hS.desGone t
+  have g6 := hS.createdPar
+  unfold execBind
+  try unfold walkNext
+  try unfold afterHint
+  try unfold applyReset
+  repeat' split
+  all_goals (try rw [‹s.pc t = _›] at g2t)
+  all_goals (try simp [Pc.owner, Pc.registered, Pc.isBind, List.Nodup.mem_erase_iff] at g2t)
+  all_goals (try rw [‹s.pc t = _›] at g3t)
+  all_goals (try simp [Pc.owner, Pc.registered, Pc.isBind, List.Nodup.mem_erase_iff] at g3t)
+  all_goals (try rw [‹s.pc t = _›] at g4t)
+  all_goals (try simp [Pc.owner, Pc.registered, Pc.isBind, List.Nodup.mem_erase_iff] at g4t)
+  all_goals (try rw [‹s.pc t = _›] at g5t)
+  all_goals (try simp [Pc.owner, Pc.registered, Pc.isBind, List.Nodup.mem_erase_iff] at g5t)
+  all_goals (intro L x h1; try simp [upd_apply, afterLists, nextList] at h1 ⊢)
+  all_goals grind [Pc.owner, Pc.registered, Pc.isBind, List.Nodup.mem_erase_iff]
+
+theorem itemsOk_exec_o (hS : Struct reg s) :
+    ∀ L x, x ∈ (execOther s t).items L → (execOther s t).lst x = some L ∧ L ∈ reg ∧ (execOther s t).par x ≠ none := by
+  have g0 := hS.itemsOk
+  have g1 := hS.itemsNodup
+  have g2 := hS.bindReg
+  have g2t := hS.bindReg t
+  have g3 := hS.ownerPar
+  have g3t := hS.ownerPar t
+  have g4 := hS.preReg
+  have g4t := hS.preReg t
+  have g5 := hS.desGone
+  have g5t := hS.desGone t
+  have g6 := hS.createdPar
+  unfold execOther
+  try unfold walkNext
+  try unfold afterHint
+  try unfold applyReset
+  repeat' split
+  all_goals (try rw [‹s.pc t = _›] at g2t)
+  all_goals (try simp [Pc.owner, Pc.registered, Pc.isBind, List.Nodup.mem_erase_iff] at g2t)
+  all_goals (try rw [‹s.pc t = _›] at g3t)
+  all_goals (try simp [Pc.owner, Pc.registered, Pc.isBind, List.Nodup.mem_erase_iff] at g3t)
+  all_goals (try rw [‹s.pc t = _›] at g4t)
+  all_goals (try simp [Pc.owner, Pc.registered, Pc.isBind, List.Nodup.mem_erase_iff] at g4t)
+  all_goals (try rw [‹s.pc t = _›] at g5t)
+  all_goals (try simp [Pc.owner, Pc.registered, Pc.isBind, List.Nodup.mem_erase_iff] at g5t)
+  all_goals (intro L x h1; try simp [upd_apply, afterLists, nextList] at h1 ⊢)
+  all_goals grind [Pc.owner, Pc.registered, Pc.isBind, List.Nodup.mem_erase_iff]
+
+theorem itemsOk_exec (hS : Struct reg s) :
+    ∀ L x, x ∈ (exec cfg reg s t).items L → (exec cfg reg s t).lst x = some L ∧ L ∈ reg ∧ (exec cfg reg s t).par x ≠ none := by
+  unfold exec
+  split
+  · exact itemsOk_exec_c hS
+  · split
+    · exact itemsOk_exec_b hS
+    · exact itemsOk_exec_o hS
+
 theorem itemsOk_begin (hS : Struct reg s) (hi : s.pc t = .idle) :
-    ∀ L x, x ∈ (begin reg s t).items L → (begin reg s t).lst x = some L ∧ L ∈ reg ∧ (begin reg s t).par x ≠ none := by
+    ∀ L x, x ∈ (begin cfg reg s t).items L → (begin cfg reg s t).lst x = some L ∧ L ∈ reg ∧ (begin cfg reg s t).par x ≠ none := by
   have g0 := hS.itemsOk
   have g1 := hS.itemsNodup
   have g2 := hS.bindReg
@@ -56,20 +127,65 @@ theorem itemsOk_begin (hS : Struct reg s) (hi : s.pc t = .idle) :
   all_goals (intro L x h1; try simp [upd_apply, afterLists, nextList] at h1 ⊢)
   all_goals grind [Pc.owner, Pc.registered, Pc.isBind, List.Nodup.mem_erase_iff]
 
-theorem itemsNodup_exec (hS : Struct reg s) :
-    ∀ L, ((exec cfg reg s t).items L).Nodup := by
+theorem itemsNodup_exec_c (hS : Struct reg s) :
+    ∀ L, ((execCancel cfg reg s t).items L).Nodup := by
   have g0 := hS.itemsOk
   have g1 := hS.itemsNodup
   have g2 := hS.preReg
   have g2t := hS.preReg t
-  exec_cases
+  unfold execCancel
+  try unfold walkNext
+  try unfold afterHint
+  try unfold applyReset
+  repeat' split
   all_goals (try rw [‹s.pc t = _›] at g2t)
   all_goals (try simp [Pc.owner, Pc.registered, List.Nodup.erase, List.nodup_cons] at g2t)
   all_goals (intro L; try simp [upd_apply, afterLists, nextList] at  ⊢)
   all_goals grind [Pc.owner, Pc.registered, List.Nodup.erase, List.nodup_cons]
 
+theorem itemsNodup_exec_b (hS : Struct reg s) :
+    ∀ L, ((execBind cfg s t).items L).Nodup := by
+  have g0 := hS.itemsOk
+  have g1 := hS.itemsNodup
+  have g2 := hS.preReg
+  have g2t := hS.preReg t
+  unfold execBind
+  try unfold walkNext
+  try unfold afterHint
+  try unfold applyReset
+  repeat' split
+  all_goals (try rw [‹s.pc t = _›] at g2t)
+  all_goals (try simp [Pc.owner, Pc.registered, List.Nodup.erase, List.nodup_cons] at g2t)
+  all_goals (intro L; try simp [upd_apply, afterLists, nextList] at  ⊢)
+  all_goals grind [Pc.owner, Pc.registered, List.Nodup.erase, List.nodup_cons]
+
+theorem itemsNodup_exec_o (hS : Struct reg s) :
+    ∀ L, ((execOther s t).items L).Nodup := by
+  have g0 := hS.itemsOk
+  have g1 := hS.itemsNodup
+  have g2 := hS.preReg
+  have g2t := hS.preReg t
+  unfold execOther
+  try unfold walkNext
+  try unfold afterHint
+  try unfold applyReset
+  repeat' split
+  all_goals (try rw [‹s.pc t = _›] at g2t)
+  all_goals (try simp [Pc.owner, Pc.registered, List.Nodup.erase, List.nodup_cons] at g2t)
+  all_goals (intro L; try simp [upd_apply, afterLists, nextList] at  ⊢)
+  all_goals grind [Pc.owner, Pc.registered, List.Nodup.erase, List.nodup_cons]
+
+theorem itemsNodup_exec (hS : Struct reg s) :
+    ∀ L, ((exec cfg reg s t).items L).Nodup := by
+  unfold exec
+  split
+  · exact itemsNodup_exec_c hS
+  · split
+    · exact itemsNodup_exec_b hS
+    · exact itemsNodup_exec_o hS
+
 theorem itemsNodup_begin (hS : Struct reg s) (hi : s.pc t = .idle) :
-    ∀ L, ((begin reg s t).items L).Nodup := by
+    ∀ L, ((begin cfg reg s t).items L).Nodup := by
   have g0 := hS.itemsOk
   have g1 := hS.itemsNodup
   have g2 := hS.preReg
@@ -80,8 +196,8 @@ theorem itemsNodup_begin (hS : Struct reg s) (hi : s.pc t = .idle) :
   all_goals (intro L; try simp [upd_apply, afterLists, nextList] at  ⊢)
   all_goals grind [Pc.owner, Pc.registered, List.Nodup.erase, List.nodup_cons]
 
-theorem preReg_exec (hS : Struct reg s) :
-    ∀ t' x p, ((exec cfg reg s t).pc t').owner = some (x, p) → ((exec cfg reg s t).pc t').registered = none → (exec cfg reg s t).lst x = none := by
+theorem preReg_exec_c (hS : Struct reg s) :
+    ∀ t' x p, ((execCancel cfg reg s t).pc t').owner = some (x, p) → ((execCancel cfg reg s t).pc t').registered = none → (execCancel cfg reg s t).lst x = none := by
   have g0 := hS.preReg
   have g0t := hS.preReg t
   have g1 := hS.createdLst
@@ -89,7 +205,11 @@ theorem preReg_exec (hS : Struct reg s) :
   have g2t := hS.ownsUnique t
   have g3 := hS.ownsSt
   have g3t := hS.ownsSt t
-  exec_cases
+  unfold execCancel
+  try unfold walkNext
+  try unfold afterHint
+  try unfold applyReset
+  repeat' split
   all_goals (try rw [‹s.pc t = _›] at g0t)
   all_goals (try simp [Pc.owner, Pc.registered, Pc.owns, Pc.owner_owns] at g0t)
   all_goals (try rw [‹s.pc t = _›] at g2t)
@@ -99,8 +219,63 @@ theorem preReg_exec (hS : Struct reg s) :
   all_goals (intro t' x p h1 h2; by_cases ht : t' = t <;> first | (subst ht; try simp [upd_apply, afterLists, nextList, Pc.owner, Pc.registered, Pc.owns, Pc.owner_owns] at h1 h2 ⊢) | (try simp [ht, upd_apply, afterLists, nextList] at h1 h2 ⊢))
   all_goals grind [Pc.owner, Pc.registered, Pc.owns, Pc.owner_owns]
 
+theorem preReg_exec_b (hS : Struct reg s) :
+    ∀ t' x p, ((execBind cfg s t).pc t').owner = some (x, p) → ((execBind cfg s t).pc t').registered = none → (execBind cfg s t).lst x = none := by
+  have g0 := hS.preReg
+  have g0t := hS.preReg t
+  have g1 := hS.createdLst
+  have g2 := hS.ownsUnique
+  have g2t := hS.ownsUnique t
+  have g3 := hS.ownsSt
+  have g3t := hS.ownsSt t
+  unfold execBind
+  try unfold walkNext
+  try unfold afterHint
+  try unfold applyReset
+  repeat' split
+  all_goals (try rw [‹s.pc t = _›] at g0t)
+  all_goals (try simp [Pc.owner, Pc.registered, Pc.owns, Pc.owner_owns] at g0t)
+  all_goals (try rw [‹s.pc t = _›] at g2t)
+  all_goals (try simp [Pc.owner, Pc.registered, Pc.owns, Pc.owner_owns] at g2t)
+  all_goals (try rw [‹s.pc t = _›] at g3t)
+  all_goals (try simp [Pc.owner, Pc.registered, Pc.owns, Pc.owner_owns] at g3t)
+  all_goals (intro t' x p h1 h2; by_cases ht : t' = t <;> first | (subst ht; try simp [upd_apply, afterLists, nextList, Pc.owner, Pc.registered, Pc.owns, Pc.owner_owns] at h1 h2 ⊢) | (try simp [ht, upd_apply, afterLists, nextList] at h1 h2 ⊢))
+  all_goals grind [Pc.owner, Pc.registered, Pc.owns, Pc.owner_owns]
+
+theorem preReg_exec_o (hS : Struct reg s) :
+    ∀ t' x p, ((execOther s t).pc t').owner = some (x, p) → ((execOther s t).pc t').registered = none → (execOther s t).lst x = none := by
+  have g0 := hS.preReg
+  have g0t := hS.preReg t
+  have g1 := hS.createdLst
+  have g2 := hS.ownsUnique
+  have g2t := hS.ownsUnique t
+  have g3 := hS.ownsSt
+  have g3t := hS.ownsSt t
+  unfold execOther
+  try unfold walkNext
+  try unfold afterHint
+  try unfold applyReset
+  repeat' split
+  all_goals (try rw [‹s.pc t = _›] at g0t)
+  all_goals (try simp [Pc.owner, Pc.registered, Pc.owns, Pc.owner_owns] at g0t)
+  all_goals (try rw [‹s.pc t = _›] at g2t)
+  all_goals (try simp [Pc.owner, Pc.registered, Pc.owns, Pc.owner_owns] at g2t)
+  all_goals (try rw [‹s.pc t = _›] at g3t)
+  all_goals (try simp [Pc.owner, Pc.registered, Pc.owns, Pc.owner_owns] at g3t)
+  all_goals (intro t' x p h1 h2; by_cases ht : t' = t <;> first | (subst ht; try simp [upd_apply, afterLists, nextList, Pc.owner, Pc.registered, Pc.owns, Pc.owner_owns] at h1 h2 ⊢) | (try simp [ht, upd_apply, afterLists, nextList] at h1 h2 ⊢))
+  all_goals grind [Pc.owner, Pc.registered, Pc.owns, Pc.owner_owns]
+
+theorem preReg_exec (hS : Struct reg s) :
+    ∀ t' x p, ((exec cfg reg s t).pc t').owner = some (x, p) → ((exec cfg reg s t).pc t').registered = none → (exec cfg reg s t).lst x = none := by
+  unfold exec
+  split
+  · exact preReg_exec_c hS
+  · split
+    · exact preReg_exec_b hS
+    · exact preReg_exec_o hS
+
 theorem preReg_begin (hS : Struct reg s) (hi : s.pc t = .idle) :
-    ∀ t' x p, ((begin reg s t).pc t').owner = some (x, p) → ((begin reg s t).pc t').registered = none → (begin reg s t).lst x = none := by
+    ∀ t' x p, ((begin cfg reg s t).pc t').owner = some (x, p) → ((begin cfg reg s t).pc t').registered = none → (begin cfg reg s t).lst x = none := by
   have g0 := hS.preReg
   have g0t := hS.preReg t
   have g1 := hS.createdLst
@@ -118,8 +293,8 @@ theorem preReg_begin (hS : Struct reg s) (hi : s.pc t = .idle) :
   all_goals (intro t' x p h1 h2; by_cases ht : t' = t <;> first | (subst ht; try simp [upd_apply, afterLists, nextList, Pc.owner, Pc.registered, Pc.owns, Pc.owner_owns] at h1 h2 ⊢) | (try simp [ht, upd_apply, afterLists, nextList] at h1 h2 ⊢))
   all_goals grind [Pc.owner, Pc.registered, Pc.owns, Pc.owner_owns]
 
-theorem desGone_exec (hS : Struct reg s) :
-    ∀ t' x L, (exec cfg reg s t).pc t' = .dUnlock x → x ∉ (exec cfg reg s t).items L := by
+theorem desGone_exec_c (hS : Struct reg s) :
+    ∀ t' x L, (execCancel cfg reg s t).pc t' = .dUnlock x → x ∉ (execCancel cfg reg s t).items L := by
   have g0 := hS.desGone
   have g0t := hS.desGone t
   have g1 := hS.itemsOk
@@ -128,7 +303,11 @@ theorem desGone_exec (hS : Struct reg s) :
   have g3t := hS.dyingOk t
   have g4 := hS.bindNotDying
   have g4t := hS.bindNotDying t
-  exec_cases
+  unfold execCancel
+  try unfold walkNext
+  try unfold afterHint
+  try unfold applyReset
+  repeat' split
   all_goals (try rw [‹s.pc t = _›] at g0t)
   all_goals (try simp [Pc.destroying, Pc.bindTarget, List.Nodup.mem_erase_iff] at g0t)
   all_goals (try rw [‹s.pc t = _›] at g3t)
@@ -138,8 +317,65 @@ theorem desGone_exec (hS : Struct reg s) :
   all_goals (intro t' x L h1; by_cases ht : t' = t <;> first | (subst ht; try simp [upd_apply, afterLists, nextList, Pc.destroying, Pc.bindTarget, List.Nodup.mem_erase_iff] at h1 ⊢) | (try simp [ht, upd_apply, afterLists, nextList] at h1 ⊢))
   all_goals grind [Pc.destroying, Pc.bindTarget, List.Nodup.mem_erase_iff]
 
+theorem desGone_exec_b (hS : Struct reg s) :
+    ∀ t' x L, (execBind cfg s t).pc t' = .dUnlock x → x ∉ (execBind cfg s t).items L := by
+  have g0 := hS.desGone
+  have g0t := hS.desGone t
+  have g1 := hS.itemsOk
+  have g2 := hS.itemsNodup
+  have g3 := hS.dyingOk
+  have g3t := hS.dyingOk t
+  have g4 := hS.bindNotDying
+  have g4t := hS.bindNotDying t
+  unfold execBind
+  try unfold walkNext
+  try unfold afterHint
+  try unfold applyReset
+  repeat' split
+  all_goals (try rw [‹s.pc t = _›] at g0t)
+  all_goals (try simp [Pc.destroying, Pc.bindTarget, List.Nodup.mem_erase_iff] at g0t)
+  all_goals (try rw [‹s.pc t = _›] at g3t)
+  all_goals (try simp [Pc.destroying, Pc.bindTarget, List.Nodup.mem_erase_iff] at g3t)
+  all_goals (try rw [‹s.pc t = _›] at g4t)
+  all_goals (try simp [Pc.destroying, Pc.bindTarget, List.Nodup.mem_erase_iff] at g4t)
+  all_goals (intro t' x L h1; by_cases ht : t' = t <;> first | (subst ht; try simp [upd_apply, afterLists, nextList, Pc.destroying, Pc.bindTarget, List.Nodup.mem_erase_iff] at h1 ⊢) | (try simp [ht, upd_apply, afterLists, nextList] at h1 ⊢))
+  all_goals grind [Pc.destroying, Pc.bindTarget, List.Nodup.mem_erase_iff]
+
+theorem desGone_exec_o (hS : Struct reg s) :
+    ∀ t' x L, (execOther s t).pc t' = .dUnlock x → x ∉ (execOther s t).items L := by
+  have g0 := hS.desGone
+  have g0t := hS.desGone t
+  have g1 := hS.itemsOk
+  have g2 := hS.itemsNodup
+  have g3 := hS.dyingOk
+  have g3t := hS.dyingOk t
+  have g4 := hS.bindNotDying
+  have g4t := hS.bindNotDying t
+  unfold execOther
+  try unfold walkNext
+  try unfold afterHint
+  try unfold applyReset
+  repeat' split
+  all_goals (try rw [‹s.pc t = _›] at g0t)
+  all_goals (try simp [Pc.destroying, Pc.bindTarget, List.Nodup.mem_erase_iff] at g0t)
+  all_goals (try rw [‹s.pc t = _›] at g3t)
+  all_goals (try simp [Pc.destroying, Pc.bindTarget, List.Nodup.mem_erase_iff] at g3t)
+  all_goals (try rw [‹s.pc t = _›] at g4t)
+  all_goals (try simp [Pc.destroying, Pc.bindTarget, List.Nodup.mem_erase_iff] at g4t)
+  all_goals (intro t' x L h1; by_cases ht : t' = t <;> first | (subst ht; try simp [upd_apply, afterLists, nextList, Pc.destroying, Pc.bindTarget, List.Nodup.mem_erase_iff] at h1 ⊢) | (try simp [ht, upd_apply, afterLists, nextList] at h1 ⊢))
+  all_goals grind [Pc.destroying, Pc.bindTarget, List.Nodup.mem_erase_iff]
+
+theorem desGone_exec (hS : Struct reg s) :
+    ∀ t' x L, (exec cfg reg s t).pc t' = .dUnlock x → x ∉ (exec cfg reg s t).items L := by
+  unfold exec
+  split
+  · exact desGone_exec_c hS
+  · split
+    · exact desGone_exec_b hS
+    · exact desGone_exec_o hS
+
 theorem desGone_begin (hS : Struct reg s) (hi : s.pc t = .idle) :
-    ∀ t' x L, (begin reg s t).pc t' = .dUnlock x → x ∉ (begin reg s t).items L := by
+    ∀ t' x L, (begin cfg reg s t).pc t' = .dUnlock x → x ∉ (begin cfg reg s t).items L := by
   have g0 := hS.desGone
   have g0t := hS.desGone t
   have g1 := hS.itemsOk
@@ -158,15 +394,50 @@ theorem desGone_begin (hS : Struct reg s) (hi : s.pc t = .idle) :
   all_goals (intro t' x L h1; by_cases ht : t' = t <;> first | (subst ht; try simp [upd_apply, afterLists, nextList, Pc.destroying, Pc.bindTarget, List.Nodup.mem_erase_iff] at h1 ⊢) | (try simp [ht, upd_apply, afterLists, nextList] at h1 ⊢))
   all_goals grind [Pc.destroying, Pc.bindTarget, List.Nodup.mem_erase_iff]
 
-theorem createdPar_exec (hS : Struct reg s) :
-    ∀ x, (exec cfg reg s t).cst x = .created → (exec cfg reg s t).par x = none := by
+theorem createdPar_exec_c (hS : Struct reg s) :
+    ∀ x, (execCancel cfg reg s t).cst x = .created → (execCancel cfg reg s t).par x = none := by
   have g0 := hS.createdPar
-  exec_cases
+  unfold execCancel
+  try unfold walkNext
+  try unfold afterHint
+  try unfold applyReset
+  repeat' split
   all_goals (intro x h1; try simp [upd_apply, afterLists, nextList] at h1 ⊢)
   all_goals grind [Pc.owns]
 
+theorem createdPar_exec_b (hS : Struct reg s) :
+    ∀ x, (execBind cfg s t).cst x = .created → (execBind cfg s t).par x = none := by
+  have g0 := hS.createdPar
+  unfold execBind
+  try unfold walkNext
+  try unfold afterHint
+  try unfold applyReset
+  repeat' split
+  all_goals (intro x h1; try simp [upd_apply, afterLists, nextList] at h1 ⊢)
+  all_goals grind [Pc.owns]
+
+theorem createdPar_exec_o (hS : Struct reg s) :
+    ∀ x, (execOther s t).cst x = .created → (execOther s t).par x = none := by
+  have g0 := hS.createdPar
+  unfold execOther
+  try unfold walkNext
+  try unfold afterHint
+  try unfold applyReset
+  repeat' split
+  all_goals (intro x h1; try simp [upd_apply, afterLists, nextList] at h1 ⊢)
+  all_goals grind [Pc.owns]
+
+theorem createdPar_exec (hS : Struct reg s) :
+    ∀ x, (exec cfg reg s t).cst x = .created → (exec cfg reg s t).par x = none := by
+  unfold exec
+  split
+  · exact createdPar_exec_c hS
+  · split
+    · exact createdPar_exec_b hS
+    · exact createdPar_exec_o hS
+
 theorem createdPar_begin (hS : Struct reg s) (hi : s.pc t = .idle) :
-    ∀ x, (begin reg s t).cst x = .created → (begin reg s t).par x = none := by
+    ∀ x, (begin cfg reg s t).cst x = .created → (begin cfg reg s t).par x = none := by
   have g0 := hS.createdPar
   begin_cases
   all_goals (intro x h1; try simp [upd_apply, afterLists, nextList] at h1 ⊢)
